@@ -38,6 +38,7 @@ type Summary struct {
 	ScanListings     int            `json:"complete_scan_listings_compared"`
 	ErrorPathRepeats int            `json:"error_path_requests_repeated"`
 	BlockSequences   int            `json:"block_sequences"`
+	SQLCompared      int            `json:"requests_whose_statements_were_compared_with_the_api_calls"`
 	FailingInBlock   int            `json:"catalogue_of_commands_failing_inside_a_block"`
 	KeywordKeys      int            `json:"requests_on_keys_named_like_keywords"`
 	LargeRequests    int            `json:"large_requests"`
@@ -925,6 +926,18 @@ func runC13(seed int64, n int, grams []*hx.CmdGrammar) {
 	defer c.Close()
 	g := &hx.WireGen{R: rand.New(rand.NewSource(seed)), Keys: []string{"k1", "k2", "k3", "k4"}, NowSec: time.Now().Unix()}
 	var hist [][]string
+	// two in-process databases behind the recording driver (see the statement comparison in one())
+	sqlCmd, _ := hx.OpenMemDriver("c13sqla", hx.FaultDriverName)
+	sqlAPI, _ := hx.OpenMemDriver("c13sqlb", hx.FaultDriverName)
+	if sqlCmd != nil && sqlAPI != nil {
+		defer sqlCmd.Close()
+		defer sqlAPI.Close()
+	} else {
+		sqlCmd = nil
+	}
+	// (random choices, and the scans, whose page depends on row ids that differ after multi-pair writes)
+	sqlSeen := map[string]bool{}
+	sqlSkip := map[string]bool{"spop": true, "srandmember": true, "randomkey": true, "scan": true, "sscan": true, "hscan": true, "zscan": true, "flushdb": true, "flushall": true}
 	// one request: send, compare the reply with the oracle's, compare the stored content
 	one := func(i int, args []string) bool {
 		low := strings.ToLower(args[0])
@@ -946,6 +959,48 @@ func runC13(seed int64, n int, grams []*hx.CmdGrammar) {
 		want, handled := hx.WireOracle(twin, toBytes(args))
 		if low == "dbsize" {
 			handled = false // counts expired-but-stored keys, which the two background cleaners remove at different times
+		}
+		// the same request once more in-process on two traced databases: through the server's
+		// parse-and-run code, and through the documented API call - they must issue the same
+		// statements with the same arguments (whatever data happens to be there)
+		if sqlCmd != nil && (!handled || sqlSkip[low] || knownWireFinding(args) != "") {
+			// not compared: keep the two traced databases in the same state
+			switch low {
+			case "srandmember", "randomkey":
+			case "spop":
+				if got.Kind == '$' && !got.Null && len(args) == 2 {
+					_, _ = sqlCmd.DB.Set().Delete(args[1], got.Str)
+					_, _ = sqlAPI.DB.Set().Delete(args[1], got.Str)
+				}
+			default:
+				hx.ApplyThroughCommandLayer(sqlCmd.DB, toBytes(args))
+				hx.ApplyThroughCommandLayer(sqlAPI.DB, toBytes(args))
+			}
+		} else if sqlCmd != nil {
+			hx.Plan.SQL = true
+			hx.Plan.Arm(0, 0, false)
+			hx.ApplyThroughCommandLayer(sqlCmd.DB, toBytes(args))
+			a := append([]string(nil), hx.Plan.Stmts...)
+			hx.Plan.Disarm()
+			hx.Plan.Arm(0, 0, false)
+			_, _ = hx.WireOracle(sqlAPI.DB, toBytes(args))
+			b := append([]string(nil), hx.Plan.Stmts...)
+			hx.Plan.Disarm()
+			hx.Plan.SQL = false
+			a, b = normStmts(a), normStmts(b)
+			if got.Kind == '-' {
+				a, b = nil, nil // refused while running: how far it got may depend on the order a Go map is walked in
+			}
+			sum.SQLCompared++
+			if os.Getenv("HX_SQLDEBUG") != "" {
+				if strings.Join(a, "\n") != strings.Join(b, "\n") && !sqlSeen[low] {
+					sqlSeen[low] = true
+					fmt.Fprintf(os.Stderr, "SQLDIFF %s\n  cmd: %s\n  api: %s\n", q(args), strings.Join(a, " ;; "), strings.Join(b, " ;; "))
+				}
+			} else if strings.Join(a, "\n") != strings.Join(b, "\n") {
+				fail("c13-mapping", fmt.Sprintf("%s: the command issues other statements than the documented API call\n command: %s\n API    : %s", q(args), strings.Join(a, " ;; "), strings.Join(b, " ;; ")), hist)
+				return false
+			}
 		}
 		if !handled {
 			sum.Unhandled++
@@ -1243,6 +1298,37 @@ func c13KeywordKeys(g *hx.WireGen, grams []*hx.CmdGrammar, one func(int, []strin
 			}
 		}
 	}
+}
+
+// normStmts prepares a recorded statement list for comparison: when the call writes, only the
+// writing statements count (how a call looks things up before it writes is not part of the
+// documented mapping; SET with an expiry may or may not read the old value first); the arguments
+// of an IN list are sorted (they come out of a Go map); the list itself is sorted for the same reason.
+func normStmts(st []string) []string {
+	isWrite := func(s string) bool {
+		l := strings.ToLower(s)
+		return strings.HasPrefix(l, "exec:") || strings.Contains(l, ": insert ") || strings.Contains(l, ": update ") || strings.Contains(l, ": delete ") || strings.Contains(l, ": with ") && (strings.Contains(l, " delete from ") || strings.Contains(l, " update ") || strings.Contains(l, " insert into "))
+	}
+	writes := false
+	for _, s := range st {
+		if isWrite(s) {
+			writes = true
+		}
+	}
+	var out []string
+	for _, s := range st {
+		if writes && !isWrite(s) {
+			continue
+		}
+		if strings.Contains(s, " in (?") {
+			parts := strings.Split(s, " | ")
+			sort.Strings(parts[1:])
+			s = strings.Join(parts, " | ")
+		}
+		out = append(out, s)
+	}
+	sort.Strings(out)
+	return out
 }
 
 // c13Bytes: see (1b) in runC13.  Only commands the server knows are sent.
